@@ -19,7 +19,7 @@ SPEC = {
             "(hash of base contents + op list) that iterate over a range containing a shadowed or deleted base key",
     "jobs": [
         Job("store", "database", "^TestVerifC13Store$", shards=(4, 16)),
-        Job("chain", "verifsim", "^TestVerifC13Chain$", shards=(8, 16), timeout=(900, 3600)),
+        Job("chain", "verifsim", "^TestVerifC13Chain$", shards=(8, 16), timeout=(900, 7200)),
     ],
     "floors": {"op_iter_reverse": 100, "op_batch_written": 100, "op_batch_abandoned": 50, "iter_over_touched_base_key": 100,
                "activity:ValidateBlock": 50, "activity:ProposeBlock": 100, "activity:ForCheck+writes+Precommit+Commit": 100,
